@@ -49,6 +49,8 @@ structure S where
 
 inductive Res where
   | ready | pending | panic
+  /-- `start_send`: the codec refused the item -/
+  | err
   deriving Repr, DecidableEq
 
 /-- one poll of an inner future: `none` = it completes now, `some d'` = `Pending`, `d'` polls left -/
@@ -88,6 +90,13 @@ def pollReady (s : S) (d0 : Nat) : S × Res :=
 def startSend (s : S) (frame : Bytes) : S × Res :=
   match s.st with
   | .idle | .configuring => ({ s with st := .writing frame none, sent := s.sent ++ frame }, .ready)
+  | _ => (s, .panic)
+
+/-- `Sink::start_send` with an item the codec refuses (possibly after partial output into the write
+    buffer): the buffer is cleared again, nothing of the item is ever written, the sink stays usable -/
+def startSendFail (s : S) : S × Res :=
+  match s.st with
+  | .idle | .configuring => ({ s with st := .idle }, .err)
   | _ => (s, .panic)
 
 /-- wait for what is in flight and, once that is `Ready` (the sink is idle again), start the future
@@ -131,6 +140,7 @@ def pollCloseUnfixed (s : S) (d0 : Nat) : S × Res :=
 inductive Call where
   | ready (d0 : Nat)
   | send (frame : Bytes)
+  | sendFail
   | flush (d0 : Nat)
   | close (d0 : Nat)
   deriving Repr, DecidableEq
@@ -138,12 +148,14 @@ inductive Call where
 def step (s : S) : Call → S × Res
   | .ready d => pollReady s d
   | .send f => startSend s f
+  | .sendFail => startSendFail s
   | .flush d => pollFlush s d
   | .close d => pollClose s d
 
 def stepUnfixed (s : S) : Call → S × Res
   | .ready d => pollReady s d
   | .send f => startSend s f
+  | .sendFail => startSendFail s
   | .flush d => pollFlushUnfixed s d
   | .close d => pollCloseUnfixed s d
 
